@@ -116,3 +116,9 @@ func errStr(err error) string {
 	}
 	return err.Error()
 }
+
+func seedEnv() int64 {
+	var s int64 = 1
+	fmt.Sscan(os.Getenv("VERIF_SEED"), &s)
+	return s
+}
